@@ -15,6 +15,10 @@ def stages(tier):
         # differential pair: the same cases with automatic variables initialised to zero / to a pattern
         Stage("api-init0", "p20_options", "init0", {"quick": 120, "thorough": 3000}, offset=500000, timeout_per_case=120),
         Stage("api-initP", "p20_options", "initP", {"quick": 120, "thorough": 3000}, offset=500000, timeout_per_case=120),
+        # differential pair on the heap: the same cases with glibc filling every malloc'd block with 0xAA / 0x55
+        # (MALLOC_PERTURB_): a member or array element that is read before it is written changes the statistics
+        Stage("api-heapAA", "p20_options", "plain", {"quick": 120, "thorough": 3000}, offset=500000, env={"MALLOC_PERTURB_": "85"}, timeout_per_case=120),
+        Stage("api-heap55", "p20_options", "plain", {"quick": 120, "thorough": 3000}, offset=500000, env={"MALLOC_PERTURB_": "170"}, timeout_per_case=120),
         # valgrind memcheck on the plain build, one case per process
         Stage("api-memcheck", "p20_options", "plain", {"quick": 12, "thorough": 400}, offset=500000, chunk=1,
               wrapper=["valgrind", "-q", "--error-exitcode=97", "--track-origins=no", "--errors-for-leak-kinds=none"],
@@ -36,9 +40,10 @@ THRESHOLDS = {
     "parser_refuses_bad_value": 0.5,
     "printed_statistics_finite": 0.5,
     "statistics_independent_of_uninitialised_locals": 0.5,
+    "statistics_independent_of_uninitialised_heap": 0.5,
 }
 REQUIRED_CHECKS = ["valid_configuration_runs", "iterations_in_range", "reduction_factor_finite", "cli_outcome_clean",
-                   "statistics_independent_of_uninitialised_locals"]
+                   "statistics_independent_of_uninitialised_locals", "statistics_independent_of_uninitialised_heap"]
 MIN_NONTRIVIAL = {"quick": 60, "thorough": 400}
 
 _stats = {}
@@ -51,7 +56,7 @@ def on_crash(crash, verdict):
 
 
 def post_stage(stage, res, verdict):
-    if stage.name in ("api-init0", "api-initP"):
+    if stage.name in ("api-init0", "api-initP", "api-heapAA", "api-heap55"):
         _stats[stage.name] = {o.get("case"): o for o in res["obs"]}
     oc = verdict.extra.setdefault("outcome_classes", {})
     for o in res["obs"]:
@@ -70,25 +75,26 @@ def _same(a, b):
 
 
 def finalize(verdict):
-    a, b = _stats.get("api-init0"), _stats.get("api-initP")
-    if a is None or b is None:
-        return
-    n = 0
-    for case, oa in a.items():
-        ob = b.get(case)
-        if ob is None:
+    total = 0
+    for first, second, sub, what in (("api-init0", "api-initP", "statistics_independent_of_uninitialised_locals", "zero- and pattern-initialised builds"),
+                                     ("api-heapAA", "api-heap55", "statistics_independent_of_uninitialised_heap", "runs with malloc'd memory pre-filled with 0xAA / 0x55")):
+        a, b = _stats.get(first), _stats.get(second)
+        if a is None or b is None:
             continue
-        n += 1
-        sa, sb = oa.get("stats") or {}, ob.get("stats") or {}
-        diff = [k for k in sorted(set(sa) | set(sb)) if not _same(sa.get(k), sb.get(k))]
-        verdict.counts["statistics_independent_of_uninitialised_locals"] = verdict.counts.get(
-            "statistics_independent_of_uninitialised_locals", 0) + 1
-        if diff:
-            ext = (oa.get("params") or {}).get("extremes", "")
-            verdict.add_violation("C20/statistics_independent_of_uninitialised_locals/%s/%s" % ("+".join(diff), ext),
-                                  "statistics differ between zero- and pattern-initialised builds: %s" % {k: (sa.get(k), sb.get(k)) for k in diff},
-                                  {"stage": "api-init0", "case": case}, oa.get("params"))
-    verdict.extra["differential_pairs_compared"] = n
+        for case, oa in a.items():
+            ob = b.get(case)
+            if ob is None:
+                continue
+            total += 1
+            sa, sb = oa.get("stats") or {}, ob.get("stats") or {}
+            diff = [k for k in sorted(set(sa) | set(sb)) if not _same(sa.get(k), sb.get(k))]
+            verdict.counts[sub] = verdict.counts.get(sub, 0) + 1
+            if diff:
+                ext = (oa.get("params") or {}).get("extremes", "")
+                verdict.add_violation("C20/%s/%s/%s" % (sub, "+".join(diff), ext),
+                                      "statistics differ between %s: %s" % (what, {k: (sa.get(k), sb.get(k)) for k in diff}),
+                                      {"stage": first, "case": case}, oa.get("params"))
+    verdict.extra["differential_pairs_compared"] = total
 
 
 RULE = ("case = small valid base configuration plus 0-3 'extreme' options drawn from: take without caches, invalid enum integers "
@@ -99,8 +105,8 @@ RULE = ("case = small valid base configuration plus 0-3 'extreme' options drawn 
         "geometry/problem/profile triples; 20% of the API cases run on an object that has already set up and solved with another inner radius; after a stop by tolerance the reported errors are recomputed from solution(); signature = (outcome class, set of extreme options); every case counts as non-trivial "
         "(it reached a documented rejection or solve())")
 ASSUMPTIONS = ["a rejection is any std::exception escaping the API call, or exit status 1 with a usage/error message on the command line",
-               "uninitialised-read detection: -ftrivial-auto-var-init=zero vs =pattern differential plus valgrind memcheck on a rotating subset"]
-TECHNIQUE = "sanitizer-instrumented option fuzzing: API driver and the real gmgpolar binary under ASan/UBSan with assertions on, zero/pattern auto-variable-initialisation differential, valgrind memcheck; outcome-class and statistics oracle"
+               "uninitialised-read detection: -ftrivial-auto-var-init=zero vs =pattern differential (automatic variables), MALLOC_PERTURB_ 0xAA vs 0x55 differential (heap), plus valgrind memcheck on a rotating subset"]
+TECHNIQUE = "sanitizer-instrumented option fuzzing: API driver and the real gmgpolar binary under ASan/UBSan with assertions on, zero/pattern auto-variable-initialisation differential, heap-fill (MALLOC_PERTURB_) differential, valgrind memcheck; outcome-class and statistics oracle"
 LEVEL_TEXT = ("sampled executions under sanitizers: hundreds (quick) to ~20 000 (thorough) option tuples through both routes; every outcome "
               "must be 'ran' or a clean rejection, statistics must be finite, in range, and identical across builds that initialise "
               "automatic variables differently; memcheck sees uninitialised reads on a subset")
